@@ -99,6 +99,26 @@ def check_pair(case, ctx):
     st_, dec = call(B.decode, hrp, got.upper())
     if st_ == "exc" or dec[0] != ver or bytes(dec[1] or b"") != prog:
         raise Violation("C11/decode/uppercase", "all-upper-case form of %s not decoded: %r" % (got, dec))
+    # the caller owns what it was handed back: editing those values in place must not change later answers
+    if isinstance(dec[1], list):
+        del dec[1][:]
+    low = getattr(B, "bech32_decode", None)
+    if low is not None:
+        st_, parts = call(low, got)
+        if st_ == "ok" and isinstance(parts, tuple):
+            for part in parts:
+                if isinstance(part, list) and part:
+                    part.pop(0)
+                    part.reverse()
+            ctx.count("edited-low-level-result")
+    st_, dec2 = call(B.decode, hrp, got)
+    if st_ == "exc" or dec2 is None or dec2[0] != ver or dec2[1] is None or bytes(dec2[1]) != prog:
+        raise Violation("C11/decode/changed-after-caller-edited-earlier-result", "decode(%r, %s) = %r after the lists returned "
+                        "by earlier calls for the same string were edited in place; expected (%d, %s)" % (hrp, got, dec2, ver, prog.hex()))
+    st_, got2 = call(B.encode, hrp, ver, list(prog))
+    if st_ == "exc" or got2 != want:
+        raise Violation("C11/encode/changed-after-caller-edited-earlier-result", "encode(%r, %d, ...) = %r after the lists "
+                        "returned by earlier calls were edited in place; expected %s" % (hrp, ver, got2, want))
     # helper wrappers on the standard programs
     if n in (20, 32) and hrp in ("bc", "tb") and ver <= 16:
         testnet = hrp == "tb"
@@ -124,7 +144,7 @@ def nt_pair(case):
 KINDS = ["valid", "upper", "mixed", "other-hrp", "wrong-const", "other-const", "nonzero-pad", "extra-zero",
          "extra-symbol", "ver-high", "len-1", "len-41", "len-0", "len-42", "v0-badlen", "too-long", "no-sep",
          "sep-first", "bad-char", "short-data", "empty-hrp", "drop-symbol", "nonascii", "space", "unicode-fold",
-         "upper-hrp-only", "upper-data-only", "hrp-is-prefix"]
+         "upper-hrp-only", "upper-data-only", "hrp-is-prefix", "expected-hrp-upper", "expected-hrp-capitalised"]
 # characters outside ASCII whose lower()/upper()/casefold() is an ASCII letter of the charset or of an HRP
 FOLDS = [("k", "\u212a"), ("K", "\u212a"), ("s", "\u017f"), ("S", "\u017f"), ("i", "\u0130"), ("I", "\u0131"),
          ("b", "\uff42"), ("B", "\uff22"), ("c", "\uff43"), ("q", "\uff51"), ("1", "\uff11"), ("1", "\u00b9")]
@@ -217,6 +237,15 @@ def build_reject(case):
         dhrp = hrp
     elif kind == "space":
         s = [" " + s, s + " ", s + "\n", s[:3] + " " + s[3:]][a % 4]
+    elif kind == "expected-hrp-upper":
+        # the caller's expected prefix is a different string (other case) than the prefix the address carries
+        dhrp = hrp.upper()
+        if a % 2:
+            s = s.upper()
+    elif kind == "expected-hrp-capitalised":
+        dhrp = hrp.capitalize()
+        if a % 2:
+            s = s.upper()
     return dhrp, s
 
 
